@@ -228,6 +228,41 @@ def run_shard(spec, tier, seed):
                         V("numpy-sum-ignores-unsupported-argument", argument=list(kw)[0], shape=list(shape))
                     except Exception:
                         res.cell("numpy.sum-rejects", sn, fl, list(kw)[0])
+    # ------------------------------------------------------------------ narrow column dtypes (Cartesian storage): the sum is the
+    # sum of the components as NumPy sums such a column on its own (integers are promoted, so nothing wraps around)
+    if system[0] == "xy" and (dim < 3 or system[1] == "z") and (dim < 4 or system[2] == "t"):
+        import vector
+
+        cls_ = getattr(vector, ("MomentumNumpy" if mom else "VectorNumpy") + f"{dim}D")
+        for dt in (numpy.int8, numpy.int16, numpy.int32, numpy.uint8, numpy.uint16, numpy.float32, numpy.float16):
+            info = numpy.iinfo(dt) if numpy.dtype(dt).kind in "iu" else None
+            shape = (3, 4)
+            raw = numpy.zeros(shape, dtype=[(nm, dt) for nm in R.field_names(system)])
+            for nm in R.field_names(system):
+                if info is not None:
+                    hi = int(info.max)
+                    raw[nm] = numpy.array([[hi, hi - 1, hi // 2, 3], [hi, 1, 2, hi], [5, hi, hi, hi]], dtype=dt)
+                else:
+                    raw[nm] = numpy.array([[1.5, 2.25, 1000.5, 3], [0.125, 1, 2, 2048.5], [5, 7.5, 0.5, 0.25]], dtype=dt)
+            arr = raw.view(cls_)
+            for axis, keep in itertools.product((None, 0, 1, -1), (False, True)):
+                res.evaluations += 1
+                cell = f"{sn}|{fl}|{numpy.dtype(dt).name}|axis={axis}|keepdims={keep}"
+                try:
+                    out = numpy.sum(arr, axis=axis, keepdims=keep)
+                    out2 = arr.sum(axis=axis, keepdims=keep)
+                except Exception as e:
+                    V("numpy-sum-raises form=narrow-dtype", cell=cell, exc=f"{type(e).__name__}: {e}"[:200])
+                    continue
+                for k in cnames:
+                    want = numpy.sum(raw[k], axis=axis, keepdims=keep)
+                    for o_ in (out, out2):
+                        got = numpy.asarray(getattr(o_, k))
+                        if got.shape != numpy.asarray(want).shape or not numpy.array_equal(got.astype(numpy.float64), numpy.asarray(want).astype(numpy.float64)):
+                            V("numpy-sum-is-not-the-cartesian-component-sum form=narrow-dtype", cell=cell, component=k,
+                              got=repr(got)[:120], expected=repr(want)[:120])
+                            break
+                res.cell("numpy.sum", cell, "narrow-dtype")
     # ------------------------------------------------------------------ Awkward
     n = 8
     idx = list(range(n))
